@@ -17,8 +17,10 @@ Local Open Scope Z_scope.
 Record fixes := { fx_clamp : bool;    (* C18_clamp.diff: chunk clamped to expected - downloaded *)
                   fx_offset : bool;   (* C18_offset.diff: body offset inside the current segment *)
                   fx_disc : bool;     (* C18_disconnect.diff: disconnect before completion abandons *)
-                  fx_clen : bool }.   (* C18_content_length.diff: digit loop stops above the largest limit *)
-Definition FIXED : fixes := {| fx_clamp := true; fx_offset := true; fx_disc := true; fx_clen := true |}.
+                  fx_clen : bool;     (* C18_content_length.diff: digit loop stops above the largest limit *)
+                  fx_done : bool }.   (* C18_finished.diff: nothing is accepted once a restart was requested;
+                                         false = callbacks still run after the request (system_restart() is asynchronous) *)
+Definition FIXED : fixes := {| fx_clamp := true; fx_offset := true; fx_disc := true; fx_clen := true; fx_done := true |}.
 
 (* ---------- tables generated from the source ---------- *)
 Fixpoint lookup (t : list (list Z)) (k : Z) : option (list Z) :=
@@ -170,6 +172,12 @@ Definition download (s : st) (content : list Z) : st * list out * bool :=
 Definition footer_ok (ft : list Z) : bool :=
   list_eqb (take (len FOOTER_MAGIC) ft) FOOTER_MAGIC &&
   (u32 (nthz ft 6 * 256 - nthz ft 7) =? RSA_BYTES).
+(* the state verify_and_reboot leaves behind: flash_awo at the signature, buff_pos = size of the last hashed chunk,
+   buff freed (the next malloc returns memory with the heap fill pattern) *)
+Definition after_verify (s : st) (a n : Z) : st :=
+  if fx_done fx then halt s
+  else mkst (started s) true (fl s) (fails s) a (rhdr s) (matched s) (hlen s) (expected s) (downloaded s)
+            (downloading s) (take n (heap ++ zeros SEC_SIZE)) true (got s).
 Definition verify_and_reboot (s : st) : st * list out :=
   let ft := if SIG_OFF <? downloaded s then fread (fl s) (awo s - FOOTER_SIZE) FOOTER_SIZE else zeros FOOTER_SIZE in
   if footer_ok ft then
@@ -180,7 +188,7 @@ Definition verify_and_reboot (s : st) : st * list out :=
       let sa := base + Z.max 0 bl in
       let sg := fread (fl s) sa RSA_BYTES in
       let v := verify body sg in
-      let '(s', o) := reboot s v in (s', OVerify body sg v :: o)
+      (after_verify s sa (if 0 <? bl then (bl - 1) mod SEC_SIZE + 1 else len (buf s)), OVerify body sg v :: snd (reboot s v))
   else reboot s false.
 
 (* ---------- header collection and parse (supla_esp_update_recv_cb, first part) ---------- *)
@@ -283,7 +291,7 @@ Definition start (s : st) : st * list out :=
 Inductive event := Start | Seg (bytes : list Z) | Disc.
 
 Definition step (s : st) (e : event) : st * list out :=
-  if halted s then (s, []) else
+  if fx_done fx && halted s then (s, []) else
   match e with
   | Start => if started s then (s, []) else start s
   | Seg b => if started s then recv s b else (s, [])
